@@ -642,3 +642,19 @@ def _c02_dict_eval_order(rec):
             if k_calls and v_calls:
                 return True
     return False
+
+
+@classifier("duplicate-functions-differ-in-defaults")
+def _c02_dup_functions(rec):
+    """remove_duplicate_functions compares function bodies up to renaming but not the default values of the arguments: `def f(a=X): ...` and
+    `def g(a=Y): ...` are merged and callers of g get f's default."""
+    b = _behaviour(rec, {"fixes.remove_duplicate_functions"})
+    if not b:
+        return False
+    _, _, _, tb, ta = b
+    by_body = {}
+    for n in ast.walk(tb):
+        if isinstance(n, ast.FunctionDef):
+            sig = (len(n.args.args), len(n.body))
+            by_body.setdefault(sig, []).append([ast.dump(d) for d in n.args.defaults + [d for d in n.args.kw_defaults if d is not None]])
+    return any(len({tuple(d) for d in v}) > 1 for v in by_body.values() if len(v) > 1)
